@@ -136,11 +136,13 @@ func (socialOnly) Send(c context.Context, outbox *url.URL, t vocab.Type) (pub.Ac
 func (w *World) Do(actor pub.FederatingActor, req Request, reqID string) (resp Response) {
 	c := WithReq(context.Background(), reqID)
 	resp.FirstEvent = len(w.Events())
+	w.realEnter(reqID)
 	defer func() {
 		if p := recover(); p != nil {
 			resp.Panic = fmt.Sprint(p)
 			resp.Stack = trimStack(string(debug.Stack()))
 		}
+		w.realLeave(reqID, resp.Panic)
 		resp.LastEvent = len(w.Events())
 	}()
 	rw := NewRW()
